@@ -1748,6 +1748,8 @@ def _contains_sym_arg(args, kwargs):
     for a in itertools.chain(args, kwargs.values()):
         if is_sym(a) or isinstance(a, SymArr):
             return True
+        if isinstance(a, np.ndarray) and a.dtype == object and has_sym(a):
+            return True
         if isinstance(a, (list, tuple)) and _contains_sym_arg(a, {}):
             return True
     return False
@@ -1757,6 +1759,8 @@ def _box(a):
     """symbolic scalars -> 0-d SymArr so numpy dispatches to us"""
     if is_sym(a):
         return scalar_arr(a)
+    if isinstance(a, np.ndarray) and a.dtype == object and not isinstance(a, SymArr):
+        return a.view(SymArr)
     if isinstance(a, (list, tuple)) and builtins.any(is_sym(x) or isinstance(x, SymArr) for x in a):
         if builtins.all(np.ndim(x) == 0 for x in a):
             o = np.empty(len(a), dtype=object)
@@ -1976,7 +1980,9 @@ class NpProxy:
 
     def isnan(self, a, **kw):
         if is_sym(a):
-            return False
+            return _el_isnan(a)
+        if isinstance(a, np.ndarray) and a.dtype == object:
+            return _isnan(a)
         return np.isnan(a, **kw)
 
     def any(self, a, axis=None, **kw):
